@@ -136,7 +136,13 @@ def trace_bounded_instance():
         # data in general position: mixture of K directions / clusters plus noise
         cent = rng.normal(size=(F, K, D)) + (1j * rng.normal(size=(F, K, D)) if cplx else 0)
         lab = rng.randint(0, K, size=(F, N))
-        y = np.take_along_axis(cent, lab[..., None], axis=1) + 0.7 * (rng.normal(size=(F, N, D)) + (1j * rng.normal(size=(F, N, D)) if cplx else 0))
+        noise = 0.7
+        if which == 'cwmm' and (inp['seed'] // 2) % 2 == 0:
+            noise = float(rng.uniform(0.06, 0.12))      # concentrated classes: Watson concentrations between 100 and the table end
+        y = np.take_along_axis(cent, lab[..., None], axis=1) + noise * (rng.normal(size=(F, N, D)) + (1j * rng.normal(size=(F, N, D)) if cplx else 0))
+        if cplx and inp['seed'] % 2:
+            # the directional models see directions only: frames of any level (quiet frames next to loud ones) give the same trace
+            y = y * 10.0 ** rng.uniform(-4.5, 2.0, size=(F, N, 1))
         emb = rng.normal(size=(F, N, 3)) + 2.0 * np.eye(3)[lab % 3]
         init = np.moveaxis(rng.dirichlet(2 * np.ones(K), size=(F, N)), -1, -2).copy() + 1e-3
         init /= init.sum(-2, keepdims=True)
